@@ -68,14 +68,18 @@ func (g *gen) units() *OptU {
 	if g.r.chance(0.7) {
 		return &OptU{}
 	}
+	if g.r.chance(0.5) {
+		// one of the SDK's package-level unit sets, by identity
+		return &OptU{true, UnitsA{Pkg: g.r.pick(pkgUnitNames...)}}
+	}
 	u := UnitsA{Base: UnitA{"u", "us", "ul", "uls"}}
 	if g.r.chance(0.6) {
-		u.Mults = append(u.Mults, MultA{60, UnitA{"mu", "mus", "mul", "muls"}})
+		u.Mults = append(u.Mults, MultA{M: 60, Unit: UnitA{"mu", "mus", "mul", "muls"}})
 	}
 	if g.r.chance(0.4) {
-		u.Mults = append(u.Mults, MultA{1024, UnitA{"ku", "ku", "kul", "kuls"}})
+		u.Mults = append(u.Mults, MultA{M: 1024, Unit: UnitA{"ku", "ku", "kul", "kuls"}})
 	}
-	return &OptU{true, u}
+	return &OptU{Some: true, V: u}
 }
 
 func (g *gen) bounds(lo, hi int64) (*OptI, *OptI) {
